@@ -3,6 +3,7 @@ import os
 import verif
 from verif import Unit, rc_params
 
+ENGINE = "enumeration+rapidcheck"
 ID = "C14"
 TECHNIQUE = ("exhaustive enumeration of every byte sequence of length 1..4 (2^32+2^24+2^16+2^8 buffers, the complete input space of both "
              "UTF-8 next-character decoders) against an RFC 3629 table; all bytes and byte pairs of every single-byte code page against the "
